@@ -148,6 +148,9 @@ static Boolean GetExport(char* Name, LargeWord* Result) {
     LongInt z;
 
     for (PartRun = PartList; PartRun; PartRun = PartRun->Next) {
+        if (!PartRun->RelocInfo) {
+            continue;
+        }
         for (z = 0; z < PartRun->RelocInfo->ExportCount; z++) {
             if (!strcmp(Name, PartRun->RelocInfo->ExportEntries[z].Name)) {
                 *Result = PartRun->RelocInfo->ExportEntries[z].Value;
